@@ -31,7 +31,7 @@ FACTORY = 'pyv.checks.c05:Session'
 NAME = b'com.example.N'
 UNOWNED = b'com.example.Unowned'
 PEERS = ['A', 'B', 'C']
-PAD = b'p' * 1500
+PAD = b'p' * 3000
 
 
 class Session(BusSession):
@@ -53,13 +53,19 @@ class Session(BusSession):
         self.method('C', 'AddMatch', [R.S(b"eavesdrop='true',destination='" + self.uname['C'] + b"'")])
         self.closed_name = self.uname['D']
         self.close_slot('D')
-        # small socket buffers for B so that a stalled B really backs up inside the bus
+        # small socket buffers on both ends so that a stalled B really backs up inside the bus (the bus-side send buffer
+        # is what limits an AF_UNIX stream), where max_outgoing_bytes (see config) then makes the bus refuse further sends
         self.bus.h.cmd('SOCKBUF %d 2048 2048' % self.slots['B'])
+        self.bus.h.cmd('SRVSOCKBUF 4608')
+        self.answered = {}         # (label, serial) -> number of error replies received so far, over the whole history
         for l in list(self.inbox):
             self.take(l)
         self.tok = 0
         self.stalled = False
         self.backlog = []          # expected arrival sequence at B while it is stalled
+
+    def config(self):
+        return B.make_config(limits={'max_outgoing_bytes': 3000})
 
     # ---- alphabet -------------------------------------------------------
     def send_ops(self, l):
@@ -203,9 +209,20 @@ class Session(BusSession):
                         maybe_err[(e['sender'], e['serial'])] += 1
             if e['code'] is not None:
                 rets[(e['codefor'], e['serial'])] = e['code']
-        # B stalled: its expected arrivals go to the backlog instead
+        # B stalled: its expected arrivals go to the backlog instead -- unless the bus refused the message because B's
+        # outgoing queue is over max_outgoing_bytes: then the sender has exactly one error and the message is never delivered
         if self.stalled and 'B' in want:
-            self.backlog += want.pop('B')
+            for tok in want.pop('B'):
+                e = next(x for x in exps if x['tok'] == tok)
+                refused = any(it[0] == 'err' and it[1] == e['serial'] and it[2].endswith(b'LimitsExceeded') for it in obs.get(e['sender'], []))
+                if refused:
+                    self.hit('refused-queue-full')
+                    maybe_err[(e['sender'], e['serial'])] += 1
+                    if 'E' in want and tok in want['E']:
+                        want['E'].remove(tok)
+                        want.setdefault('E?', []).append(tok)
+                else:
+                    self.backlog.append(tok)
         msgs_by_tok = {e['tok']: e for e in exps if e['tok'] is not None}
         for l, items in obs.items():
             got = [it[1] for it in items if it[0] == 'msg']
@@ -245,6 +262,7 @@ class Session(BusSession):
                     out.append(Violation('field-changed', 'relayed', '%s: token %r changed in transit: %r' % (opdesc, it[1], o), None))
             # errors and replies
             goterr = Counter((l, it[1]) for it in items if it[0] == 'err')
+
             for k, c in goterr.items():
                 allowed = errs.get(k, 0) + maybe_err.get(k, 0) + (1 if (k in rets) else 0)
                 if c > max(allowed, 0) or (c > 1):
@@ -263,6 +281,25 @@ class Session(BusSession):
             if l not in obs and l not in ('E?',) and want[l] and not (l == 'B' and self.stalled):
                 out.append(Violation('not-delivered', 'recipient-gone', '%s: expected %r at %s which produced no observation' % (opdesc, want[l], l), None))
 
+    def note_errors(self, obs, out, opdesc):
+        """Over the whole history a call gets at most one error reply (refused, undeliverable, or NoReply because the
+        recipient went away) -- never a second one for the same serial."""
+        for lab, items in obs.items():
+            for it in items:
+                if it[0] == 'err':
+                    k = (lab, it[1])
+                    self.answered[k] = self.answered.get(k, 0) + 1
+                    if self.answered[k] > 1:
+                        out.append(Violation('error-count', 'second-error', '%s: %s has now received %d error replies for its serial %d (over the whole history)' % (opdesc, lab, self.answered[k], it[1]), None))
+
+    def snapshot(self):
+        s = BusSession.snapshot(self)
+        return (s[0], dict(s[1], answered=dict(self.answered)))
+
+    def restore(self, snap):
+        BusSession.restore(self, (snap[0], {k: v for k, v in snap[1].items() if k != 'answered'}))
+        self.answered = dict(snap[1]['answered'])
+
     # ---- transitions -----------------------------------------------------------
     def apply(self, op):
         out = []
@@ -272,7 +309,9 @@ class Session(BusSession):
             exp = self.predict(self.reg, op, built)
             self.send(op[1], built[0])
             self.hit(kind)
-            self.check([exp], self.observe(), out, repr(op))
+            obs = self.observe()
+            self.check([exp], obs, out, repr(op))
+            self.note_errors(obs, out, repr(op))
         elif kind == 'disc':
             l = op[1]
             if l == 'B':
@@ -281,7 +320,9 @@ class Session(BusSession):
                 self.stalled = False
             self.close_slot(l)
             self.reg.drop_connection(l)
-            self.observe()
+            # a recipient that goes away may leave callers with NoReply for calls it never answered: still at most one
+            # error per call over the whole history, and never for a call that was already refused
+            self.note_errors(self.observe(), out, repr(op))
         elif kind == 'stall':
             self.bus.h.cmd('NODRAIN %d 1' % self.slots['B'])
             self.stalled = True
@@ -328,6 +369,7 @@ class Session(BusSession):
                     break
                 self.backlog = saved
                 verdicts.append(vs)
+            self.note_errors(obs, out, repr(op))
             if verdicts is not None:
                 v = verdicts[0][0]
                 out.append(Violation('batch-unexplained', v.clause, 'no processing order explains the observations of %r; first order: %s | second order: %s' %
